@@ -82,6 +82,19 @@ def canonical_v(m, conn, v, z, n):
     return z * cmath.rect(1, -n * th)
 
 
+def degenerate_weights(mesh):
+    """does some interior edge see two opposite angles whose cotangents cancel (the library then uses the weight 1e8)?"""
+    P = [np.asarray(p, dtype=float) for p in mesh["P"]]
+    opp = {}
+    for f in mesh["F"]:
+        for i in range(3):
+            a, b, c = f[i], f[(i + 1) % 3], f[(i + 2) % 3]
+            u, w = P[a] - P[c], P[b] - P[c]
+            cr = float(np.linalg.norm(np.cross(u, w)))
+            opp.setdefault((min(a, b), max(a, b)), []).append(float(np.dot(u, w)) / cr if cr > 0 else float("inf"))
+    return any(len(v) == 2 and abs(v[0] + v[1]) < 1e-6 for v in opp.values())
+
+
 def sing_fields(m, ff, n, e):
     s = m.vertices.get_attribute("singuls")
     vals = [float(s[v]) for v in range(len(m.vertices))]
@@ -251,9 +264,12 @@ def exec_case(case):
                 flag_field(src, e)
             else:
                 can = run_faces(src, e) if op == "run" else run_vertices(src, e)
+                # independence of numbering is judged with smoothing off (the smoothing weight comes from an iterative eigen-solver started at
+                # random) and without the library's 1e8 stand-in weights for edges whose opposite cotangents cancel (round-off is amplified by 1e8)
+                comparable = ev["ns"] == 0 and not (ev["cotan"] and degenerate_weights(src["mesh"]))
                 if ev.get("variant", 0) == 0:
                     ref = can
-                elif ref is not None:
+                elif ref is not None and comparable:
                     if op == "run":                          # faces keep their place
                         e["inv"] = int(max(abs(a - b) for a, b in zip(can, ref)) < 1e-6)
                     else:                                    # vertices are renumbered by perm (old -> new)
